@@ -1,7 +1,7 @@
 // Package vatomic replaces go.uber.org/atomic in the instrumented client: the operations are real atomics (so the
-// race detector sees their synchronisation), preceded by a scheduling point for loads. Stores and read-modify-write
-// operations are reported to the scheduler without being scheduling points (it needs their order for the
-// happens-before state keys, see rt/hb.go).
+// race detector sees their synchronisation), each preceded by a scheduling point. (Stores used to be invisible to
+// the scheduler: a store right after a `go` statement then formed one atomic step with the spawn, and the new
+// goroutine could never observe the value from before the store - which the real runtime allows.)
 package vatomic
 
 import (
@@ -23,7 +23,7 @@ func (b *Bool) Load() bool {
 }
 func (b *Bool) Store(v bool) {
 	if rt.Active() {
-		rt.AtomicStore(unsafe.Pointer(b))
+		rt.AtomicRMW(unsafe.Pointer(b))
 	}
 	b.v.Store(v)
 }
@@ -40,7 +40,7 @@ func (u *Uint64) Load() uint64 {
 }
 func (u *Uint64) rmw() {
 	if rt.Active() {
-		rt.AtomicStore(unsafe.Pointer(u))
+		rt.AtomicRMW(unsafe.Pointer(u))
 	}
 }
 func (u *Uint64) Store(x uint64)      { u.rmw(); u.v.Store(x) }
